@@ -42,6 +42,7 @@ class Interp:
         self.opaque_calls = set()
         self.inlined = set()
         self.npaths = 0
+        self.events = []  # (callee, arg terms, path conditions) of opaque / modelled calls
 
     # -- places -------------------------------------------------------------------------
     def addr(self, env, heap, place):
@@ -70,6 +71,8 @@ class Interp:
             inner = heap.get(cur[1], cur[1])
             if inner[0] == "variant" and inner[1] == cur[2] and f.isdigit() and int(f) < len(inner[2]):
                 return inner[2][int(f)]
+        if cur[0] == "closure" and f.isdigit() and int(f) < len(cur[2]):
+            return cur[2][int(f)]
         if cur[0] == "adt":
             for k_, v_ in cur[2]:
                 if k_ == f:
@@ -102,7 +105,7 @@ class Interp:
         return ("const", op.get("c"))
 
     # -- running ------------------------------------------------------------------------
-    def run(self, fn, args, heap=None, conds=None, depth=0):
+    def run(self, fn, args, heap=None, conds=None, depth=0, subst=None):
         """Yield (ret term, heap dict, conds list) for every path of fn."""
         body = self.facts.mir.get(fn)
         if body is None:
@@ -112,7 +115,12 @@ class Interp:
         env0 = {}
         for i, a in enumerate(args):
             env0[i + 1] = a
-        yield from self._walk(body, 0, env0, dict(heap or {}), list(conds or []), frozenset(), depth, fn)
+        old = getattr(self, "subst", {})
+        self.subst = subst or {}
+        try:
+            yield from self._walk(body, 0, env0, dict(heap or {}), list(conds or []), frozenset(), depth, fn)
+        finally:
+            self.subst = old
 
     def _walk(self, body, bi, env, heap, conds, visited, depth, fn):
         while True:
@@ -246,6 +254,8 @@ class Interp:
                 if rv["adt"] in ("std::option::Option", "std::result::Result"):
                     return ("variant", rv["variant"], ops, {"None": 0, "Some": 1, "Ok": 0, "Err": 1}[rv["variant"]])
                 return ("adt", rv["adt"], tuple(zip(rv.get("fields", []), ops)))
+            if rv.get("ak") == "closure":
+                return ("closure", rv["closure"], ops)
             return ("agg", rv.get("ak"), ops)
         return ("unknown", k)
 
@@ -288,11 +298,27 @@ class Interp:
         if orig in ("std::ops::Deref::deref", "std::ops::DerefMut::deref_mut", "std::clone::Clone::clone", "std::convert::AsRef::as_ref", "std::borrow::Borrow::borrow") and len(args) == 1:
             yield (args[0], heap, conds)
             return
+        if orig == "std::convert::Into::into" and len(t.get("targs", [])) == 2 and len(args) == 1:
+            T, U = (self.subst_ty(self.facts.ty(i)) for i in t["targs"])
+            cand = "<%s as std::convert::From<%s>>::from" % (U, T)
+            if cand in self.facts.mir and depth < MAX_DEPTH:
+                self.inlined.add(cand)
+                yield from self.run(cand, args, heap, conds, depth + 1)
+                return
+        m = self.model(fn, orig, name, args, heap, conds, depth)
+        if m is not None:
+            yield from m
+            return
         if fn in self.facts.mir and depth < MAX_DEPTH and self.inline(fn):
             b2 = self.facts.mir[fn]
             if len(b2["blocks"]) <= MAX_BLOCKS:
                 self.inlined.add(fn)
-                outs = list(self.run(fn, args, heap, conds, depth + 1))
+                sub = {}
+                gen = b2.get("generics", [])
+                tas = [self.subst_ty(self.facts.ty(i)) for i in t.get("targs", [])]
+                if gen and len(gen) == len(tas):
+                    sub = dict(zip(gen, tas))
+                outs = list(self.run(fn, args, heap, conds, depth + 1, subst=sub))
                 n0 = len(conds)
                 if len(outs) > 1 and all(h == heap for _, h, _ in outs):
                     cases = tuple((tuple((freeze(c), e) for c, e in cs[n0:]), freeze(r)) for r, _, cs in outs)
@@ -301,7 +327,15 @@ class Interp:
                 yield from outs
                 return
         self.opaque_calls.add(fn)
+        self.events.append((fn, tuple(args), tuple(conds)))
         yield (("call", fn, tuple(args)), heap, conds)
+
+    def model(self, fn, orig, name, args, heap, conds, depth):
+        """Hook for subclasses: return an iterable of outcomes or None."""
+        return None
+
+    def subst_ty(self, ty):
+        return getattr(self, "subst", {}).get(ty, ty)
 
     def _discr(self, heap, a):
         cur = heap.get(a, a)
